@@ -18,6 +18,10 @@ type RandomOpts struct {
 	ReservedNames bool
 	Extensions    bool
 	Services      bool
+	// CrossPackage: at least two Go packages, every file importing all earlier
+	// ones (so that messages of one package are fields, list elements and map
+	// values of another).
+	CrossPackage bool
 	// Tag, when set, selects the compilable flavour used as extra corpus for the
 	// codec engines: Go packages under internal/verifsim/rnd/<Tag>p<k>.
 	Tag string
@@ -85,8 +89,20 @@ func RandomSet(t *simhook.Tape, opts RandomOpts) []*descriptorpb.FileDescriptorP
 		}
 		return g.files
 	}
+	if opts.CrossPackage {
+		if nPkgs < 2 {
+			nPkgs = 2
+		}
+		if nFiles < 3 {
+			nFiles = 3
+		}
+		g.forceImports = true
+	}
 	for i := 0; i < nFiles; i++ {
 		pkg := t.Draw("rs.pkgof", nPkgs)
+		if opts.CrossPackage && i < nPkgs {
+			pkg = i
+		}
 		g.genFile(i, pkg)
 	}
 	return g.files
